@@ -128,6 +128,8 @@ def run(ck):
     if ed is not None:
         ck.decide(bool(ed.live_calls(r"State::d_code$")), "ATOM/table-use", "encode_dist:d_code", "uses d_code", "encode_dist does not use d_code", where(ed))
     params_flush(ck, P)
+    from . import c05
+    c05.stored_final_block(ck, P)
     # the decoder's match copy replicates overlapping matches (distance < length) byte by byte
     from .. import decoders
     ck.floor("WHO/overlap-safe-copy", decoders.overlap_safe(ck, P, "WHO/overlap-safe-copy", r"inflate::writer::Writer::copy_match_help$"), 1)
